@@ -234,8 +234,13 @@ class Baton:
         return ex
 
 
-def explore(run_one, bound: int):
+def explore(run_one, bound: int, slice_index: int = 0, slices: int = 1):
     """Stateless exploration of ALL schedules with at most ``bound`` preemptions.
+
+    The schedule tree can be cut into ``slices`` disjoint parts for parallel workers: part
+    i owns the sub-trees below the root execution's alternatives number i, i+slices, ...
+    (every part re-executes the root; only part 0 yields it).  The union over all parts
+    is exactly the unsliced exploration.
 
     ``run_one(choices) -> Execution`` executes the system once under the given prefix of
     choices (defaults afterwards).  Every alternative at every scheduling point after the
@@ -260,8 +265,10 @@ def explore(run_one, bound: int):
         if ex.choices[: len(prefix)] != list(prefix):
             msg = f"prefix {list(prefix)} not followed: {ex.choices[: len(prefix)]}"
             raise ReplayDivergence(msg)
-        yield index, ex
-        index += 1
+        is_root = expect is None
+        if not is_root or slice_index == 0:
+            yield index, ex
+            index += 1
         pre = 0
         children = []
         for i, (n_enabled, running) in enumerate(ex.points):
@@ -275,6 +282,8 @@ def explore(run_one, bound: int):
                         ))
             if ex.preemptive[i]:
                 pre += 1
+        if is_root and slices > 1:
+            children = [c for n, c in enumerate(children) if n % slices == slice_index]
         # canonical order: earliest deviation explored first
         stack.extend(reversed(children))
 
